@@ -34,7 +34,7 @@ OBLIGATIONS = ["NiftyVerif.C16." + t for t in (
     "ls_success_wolfe", "ls_success_wolfe_fun", "ls_success_strict_decrease", "ls_returns_evaluated_point",
     "quadmin_stationary", "cubicmin_interpolates", "cubicmin_stationary",
     "vl_eq_two_loop", "buffer_window", "vl_eq_lbfgs_direction",
-    "store_gram", "store_invariant_step", "vl_run_eq_lbfgs_run",
+    "store_gram", "store_invariant_step", "vl_run_eq_lbfgs_run", "vl_run_eq_lbfgs_run_driver",
 )]
 RULE = ("ls: generated polynomial energy x start x direction kind x LineSearch parameters, non-trivial = at least one "
         "line evaluation recorded; min: minimiser x energy x start x controller, non-trivial = at least one search; "
